@@ -166,7 +166,7 @@ func New(opt Options, fsm FSM, storageDir string) (*Raft, error) {
 func (r *Raft) ListenAndServe(addr string) error {
 	lr, err := net.Listen("tcp", addr)
 	if err != nil {
-		panic(err)
+		return err
 	}
 	return r.Serve(lr)
 }
